@@ -76,6 +76,8 @@ type Explorer struct {
 	random       *rand.Rand
 	LockEdges    map[string]LockEdge
 	vmOnly       map[string]bool
+	CrossChecked int
+	CrossUnknown int
 	lastObserves []string
 }
 
@@ -518,6 +520,8 @@ type Report struct {
 	Stubs        map[string]int
 	LockEdges    map[string]LockEdge
 	VMOnly       map[string]bool
+	CrossChecked int
+	CrossUnknown int
 }
 
 func (ex *Explorer) Run(runPath func() *PathResult) *Report {
@@ -604,7 +608,7 @@ func (ex *Explorer) Run(runPath func() *PathResult) *Report {
 	}
 	r := &Report{Cfg: ex.cfg, Paths: ex.Paths, PathKinds: ex.PathKinds, Inconclusive: ex.Inconclusive, Reached: ex.Reached,
 		Asserts: ex.Asserts, Obligations: ex.Obligations, Discharged: ex.Discharged, DecisionPts: ex.DecisionPts, Steps: ex.Steps,
-		Samples: ex.Samples, Complete: complete, MaxTraceLen: ex.MaxTraceLen, Stubs: ex.stubsUsed, LockEdges: ex.LockEdges, VMOnly: ex.vmOnly}
+		Samples: ex.Samples, Complete: complete, MaxTraceLen: ex.MaxTraceLen, Stubs: ex.stubsUsed, LockEdges: ex.LockEdges, VMOnly: ex.vmOnly, CrossChecked: ex.CrossChecked, CrossUnknown: ex.CrossUnknown}
 	for _, l := range ex.violOrder {
 		r.Violations = append(r.Violations, ex.Violations[l])
 	}
